@@ -12,3 +12,8 @@ claim("C19",
       "Proof for all methods, paths and header sets: shouldProxy accepts only the four documented shapes and only paths whose slash-free segments stay under the first segment after dot-segment normalisation (loop invariant over the segment list); ServeHTTP reaches the reverse proxy only then, and at that call the four client-supplied forwarding headers are absent and X-Connecting-Ip is exactly the host of RemoteAddr (the property is the precondition of the assumed ReverseProxy.ServeHTTP contract); otherwise the backend is not contacted.",
       "Trusted: govc, SMT solvers, go/ssa. Assumed (from their source): strings.SplitN/TrimPrefix as uninterpreted functions with size facts, http.Header Set/Del/Get map semantics with canonical keys, Request.WithContext shallow copy, netutil.SplitHost; httputil.ReverseProxy in Rewrite mode and the backend's own normalisation are not verified.",
       "DESIGN.md section 5 C19")
+
+claim("C08",
+      "Proof for all messages, EDNS settings, maxima and protocols: maxDNSSize is the stated table; every response is truncated (miekg Truncate, assumed contract from its source) to exactly maxDNSSize(network, client's EDNS size, configured maximum) after its OPT record is in place; TC set implies an empty answer section; a query with OPT gets an OPT back with the client's UDP size, version 0 and DO mirrored, and no OPT is invented otherwise; padding is added only under HasPaddingSupport (DoT/DoH/DoQ) and only when the request carries a padding option; keep-alive only when requested; the two-byte stream prefix never covers more than 65535 bytes. Quantified loop invariants, exact uint16/uint32 arithmetic.",
+      "Trusted: govc, SMT solvers, go/ssa. Assumed from miekg/dns source: IsEdns0 (last OPT), OPT accessors (bit layout of the TTL field), Truncate (keeps the last OPT, never trims question/OPT), PackBuffer, EDNS0 option codes; rand.Intn range; slices.Grow; binary.BigEndian.PutUint16. NOT decided: the wire-size bound itself (question+OPT larger than the limit is sent oversize by miekg Truncate; DoH padding after truncation) - dependency code, see DESIGN section 6.",
+      "DESIGN.md section 5 C08")
